@@ -583,7 +583,11 @@ pub fn run(args: &Args) -> i32 {
     let rec = Recorder::new(args, "model_checking");
     let cyc = Cycle::build();
     let thorough = args.thorough();
-    let units = units_for(&cyc, thorough);
+    let mut units = units_for(&cyc, thorough);
+    if args.digest_mode {
+        // C19 digest mode: reduced deterministic workload
+        units.retain(|u| u.secs != SecSet::All || u.name == "all_seconds_1968_1971");
+    }
     let mut total = run_units(&cyc, c02, &units, &rec);
     total = total.merge(sweep_all_cycles(&cyc, c02, thorough, &rec));
     if c02 {
